@@ -1,5 +1,5 @@
 // collrun.rs — C05, the collection layer: drives the real storage-backed collections (through the
-// cfg(agdb_verif) wrappers of hook H4: agdb::verif::{VDbVecU64, VDbVecI64, VDbVecString, VMapDataU64,
+// cfg(agdb_verif) wrappers of hook H4: agdb::verif::{VDbVecU64, VDbVecI64, VDbVecString, VDbVecValue, VDbVecKeyValue, VMapDataU64,
 // VMapDataStr, VMultiMapOn, VGraphData} over a VStorage) on MemoryStorage, FileStorage and
 // FileStorageMemoryMapped with generated operation histories in which the handle is dropped and rebuilt
 // with from_storage (reload) and the storage underneath is optimized, dropped + reopened, backed up +
@@ -13,8 +13,9 @@
 // Needs the cargo feature `h4_dbvec`.
 use crate::rng::Rng;
 use crate::sexp::hex;
-use agdb::verif::{VDbVecI64, VDbVecString, VDbVecU64, VGraphData, VGraphField, VMapDataStr, VMapDataU64, VMultiMapOn, VStorage};
-use agdb::{DbError, FileStorage, FileStorageMemoryMapped, MemoryStorage, StorageData};
+use crate::dbq::{show_kv, show_value};
+use agdb::verif::{VDbVecI64, VDbVecKeyValue, VDbVecString, VDbVecU64, VDbVecValue, VGraphData, VGraphField, VMapDataStr, VMapDataU64, VMultiMapOn, VStorage};
+use agdb::{DbError, DbF64, DbKeyValue, DbValue, FileStorage, FileStorageMemoryMapped, MemoryStorage, StorageData};
 use std::collections::BTreeMap;
 
 pub struct Out {
@@ -33,10 +34,10 @@ fn rm_files(path: &str) { let _ = std::fs::remove_file(path); let _ = std::fs::r
 fn err_kind(e: &DbError) -> String { format!("{:?}", e.ty) }
 
 #[derive(Clone, Copy, PartialEq, Debug)]
-pub enum Kind { VecU64, VecI64, VecStr, MapU64, MapStr, Graph, MultiMap }
+pub enum Kind { VecU64, VecI64, VecStr, VecVal, VecKv, MapU64, MapStr, Graph, MultiMap }
 impl Kind {
     fn name(&self) -> &'static str {
-        match self { Kind::VecU64 => "vec_u64", Kind::VecI64 => "vec_i64", Kind::VecStr => "vec_str", Kind::MapU64 => "map_u64",
+        match self { Kind::VecU64 => "vec_u64", Kind::VecI64 => "vec_i64", Kind::VecStr => "vec_str", Kind::VecVal => "vec_val", Kind::VecKv => "vec_kv", Kind::MapU64 => "map_u64",
                      Kind::MapStr => "map_str", Kind::Graph => "graph", Kind::MultiMap => "mm_u64" }
     }
 }
@@ -183,6 +184,26 @@ fn gen_str(r: &mut Rng) -> String {
 vec_runner!(run_vec_u64, VDbVecU64, u64, gen_u64, |x: &u64| format!("{:x}", x));
 vec_runner!(run_vec_i64, VDbVecI64, i64, gen_i64, |x: &i64| format!("{:x}", *x as u64));
 vec_runner!(run_vec_str, VDbVecString, String, gen_str, |x: &String| hex(x.as_bytes()));
+
+// database values: inline up to 15 bytes, one out-of-line record beyond (the boundary lengths are favoured)
+fn gen_blob_len(r: &mut Rng) -> usize { match r.below(6) { 0 => 0, 1 => 15, 2 => 16, 3 => r.range(17, 60) as usize, _ => r.range(1, 14) as usize } }
+fn gen_dbv(r: &mut Rng) -> DbValue {
+    match r.below(10) {
+        0 => DbValue::I64(gen_i64(r)),
+        1 => DbValue::U64(gen_u64(r)),
+        2 => DbValue::F64(DbF64::from(f64::from_bits(match r.below(4) { 0 => 0x7ff8_0000_0000_0001, 1 => 0x8000_0000_0000_0000, _ => r.next() }))),
+        3 | 4 => { let n = gen_blob_len(r); DbValue::String((0..n).map(|_| *r.pick(&['a', 'Z', '0', ' '])).collect()) }
+        5 => DbValue::String(gen_str(r)),
+        6 => { let n = gen_blob_len(r); DbValue::Bytes((0..n).map(|_| r.next() as u8).collect()) }
+        7 => DbValue::VecI64((0..r.below(4)).map(|_| gen_i64(r)).collect()),
+        8 => DbValue::VecU64((0..r.below(4)).map(|_| gen_u64(r)).collect()),
+        _ => DbValue::VecString((0..r.below(3)).map(|_| gen_str(r)).collect()),
+    }
+}
+fn gen_dbkv(r: &mut Rng) -> DbKeyValue { DbKeyValue { key: gen_dbv(r), value: gen_dbv(r) } }
+
+vec_runner!(run_vec_val, VDbVecValue, DbValue, gen_dbv, |x: &DbValue| show_value(x));
+vec_runner!(run_vec_kv, VDbVecKeyValue, DbKeyValue, gen_dbkv, |x: &DbKeyValue| show_kv(x));
 
 // ---------------------------------------------------------------------------------------------------------
 // DbMapData: the MapData interface (three vectors + the record with len)
@@ -402,6 +423,8 @@ fn run_on<D: StorageData>(r: &mut Rng, dir: &str, tag: &str, backend: &str, mem:
             Kind::VecU64 => run_vec_u64(r, &mut store, backend, kind, steps, o),
             Kind::VecI64 => run_vec_i64(r, &mut store, backend, kind, steps, o),
             Kind::VecStr => run_vec_str(r, &mut store, backend, kind, steps, o),
+            Kind::VecVal => run_vec_val(r, &mut store, backend, kind, steps, o),
+            Kind::VecKv => run_vec_kv(r, &mut store, backend, kind, steps, o),
             Kind::MapU64 => run_map_u64(r, &mut store, backend, kind, steps, o),
             Kind::MapStr => run_map_str(r, &mut store, backend, kind, steps, o),
             Kind::Graph => run_graph(r, &mut store, backend, kind, steps, o),
@@ -417,7 +440,7 @@ fn run_on<D: StorageData>(r: &mut Rng, dir: &str, tag: &str, backend: &str, mem:
 }
 
 pub fn run_history(r: &mut Rng, dir: &str, idx: u64, steps: u64, o: &mut Out) {
-    let kinds = [Kind::VecU64, Kind::VecI64, Kind::VecStr, Kind::VecStr, Kind::MapU64, Kind::MapStr, Kind::Graph, Kind::MultiMap];
+    let kinds = [Kind::VecU64, Kind::VecI64, Kind::VecStr, Kind::VecVal, Kind::VecKv, Kind::MapU64, Kind::MapStr, Kind::Graph, Kind::MultiMap, Kind::VecStr, Kind::VecKv];
     let kind = kinds[(idx % kinds.len() as u64) as usize];
     let hs = r.next();
     // the same history on the three back-ends (the model: ops_mem for MemoryStorage, ops_file for the file back-ends)
